@@ -24,8 +24,12 @@ type Job struct {
 	Bound        int            `json:"bound"`  // preemption bound; <0 unbounded
 	Budget       int            `json:"budget"` // max executions, 0 = none
 	StopFirst    bool           `json:"stop_first"`
-	Prune        bool           `json:"prune,omitempty"` // unbounded search with global-state-key pruning (only with Bound < 0)
+	Prune        bool           `json:"prune,omitempty"` // global-state-key pruning (sound for oracles over end states and per-thread histories only)
 	DeadlineUnix int64          `json:"deadline_unix"`   // stop enumerating after this time (exhaustive=false)
+	MaxSeconds   int            `json:"max_seconds,omitempty"`
+	// Deepening: an extra, open-ended pass (usually unbounded) run after the bounded jobs; being cut by
+	// its time budget does not make the check non-exhaustive, how far it got is reported separately.
+	Deepening bool `json:"deepening,omitempty"`
 }
 
 type JobResult struct {
